@@ -222,25 +222,40 @@ async fn run(input: RunInput, mode: Mode) -> RunOutput {
                 });
                 w.probe("cpu-bound-handler-started");
                 interesting = true;
-                // with every slot of b's service taken: another peer's request has to wait for the
-                // service, and that peer hangs up meanwhile
-                if backpressure == Some(1) && r_cpu.gen_bool(0.5) {
-                    let c = (0..n).find(|c| *c != a && *c != b && slots[*c].node.net.peers().contains(&ids[b]) && silent_death.map(|(_, d)| d != *c).unwrap_or(true));
-                    if let Some(c) = c {
-                        sleep_ms(2 * lat_max / 1000 + 5).await;
-                        let net = slots[c].node.net.clone();
+            }
+        }
+        // with every slot of a node's service taken by slow requests, another peer's request has to
+        // wait for the service - and that peer hangs up meanwhile
+        if let Some(k) = backpressure {
+            if r_cpu.gen_bool(0.3) {
+                let b = r_cpu.gen_range(0..n);
+                let alive = |x: usize| silent_death.map(|(_, d)| d != x).unwrap_or(true);
+                let conn: Vec<usize> = (0..n).filter(|x| *x != b && alive(*x) && slots[*x].node.net.peers().contains(&ids[b]) && slots[b].node.net.peers().contains(&ids[*x])).collect();
+                if conn.len() >= 2 && alive(b) && holder_until[b] <= w.now_ns() {
+                    let (a, c) = (conn[0], conn[1]);
+                    let busy_ms: u64 = r_cpu.gen_range(300..1_500);
+                    holder_until[b] = w.now_ns() + (busy_ms + 100) * 1_000_000;
+                    let pb = ids[b];
+                    for _ in 0..k {
+                        let net = slots[a].node.net.clone();
                         tokio::spawn(async move {
-                            let _ = net.rpc(pb, Request::new(Bytes::from_static(b"queued"))).await;
+                            let _ = net.rpc(pb, Request::new(Bytes::from_static(b"slow")).with_header("x-delay-ms", busy_ms.to_string())).await;
                         });
-                        sleep_ms(2 * lat_max / 1000 + 5).await;
-                        let t = w.now_ns();
-                        let _ = slots[c].node.net.disconnect(ids[b]);
-                        if !faulty && !crashed && silent_death.is_none() {
-                            clean_disconnects.push((t, c, b));
-                        }
-                        w.probe("hang-up-while-a-request-waits-for-the-service");
-                        w.event(format!("disconnect n{c}-n{b}:while-queued"));
                     }
+                    sleep_ms(2 * lat_max / 1000 + 5).await;
+                    let net = slots[c].node.net.clone();
+                    tokio::spawn(async move {
+                        let _ = net.rpc(pb, Request::new(Bytes::from_static(b"queued"))).await;
+                    });
+                    sleep_ms(2 * lat_max / 1000 + 5).await;
+                    let t = w.now_ns();
+                    let _ = slots[c].node.net.disconnect(ids[b]);
+                    if !faulty && !crashed && silent_death.is_none() {
+                        clean_disconnects.push((t, c, b));
+                    }
+                    interesting = true;
+                    w.probe("hang-up-while-a-request-waits-for-the-service");
+                    w.event(format!("disconnect n{c}-n{b}:while-queued"));
                 }
             }
         }
